@@ -28,6 +28,8 @@ inductive Op where
   | names (h : Nat)
   | sources (h : Nat)
   | listing (h : Nat)
+  | runKind (h : Nat) (k : Kind)                              -- Lint{Certificate,RevocationList,OcspResponse}Ex with this registry: the names in the result set
+  | lookups (h : Nat)                                        -- the per-kind views: full listing, by-name and by-source lookups
 
 def Heap.regOf (hp : Heap) (h : Nat) : Option (Nat × Reg) :=
   match hp.handles[h]? with
@@ -37,6 +39,17 @@ def Heap.regOf (hp : Heap) (h : Nat) : Option (Nat × Reg) :=
 def Heap.setReg (hp : Heap) (i : Nat) (r : Reg) : Heap := { hp with regs := hp.regs.set i r }
 
 def join (xs : List String) : String := if xs.isEmpty then "-" else ",".intercalate xs
+
+def kindNames (r : Reg) (k : Kind) : String := join (sortStrings ((r.lookupOf k).lints.map (fun e => e.md.name)))
+
+/-- the two observations added for C01 / C12: a lint run holds exactly one result per registered lint of the
+    kind — whenever it was registered — and the three per-kind views of a registry describe the same set -/
+def stepObs (hp : Heap) : Op → Option String
+  | .runKind h k => some (match hp.regOf h with | none => "bad-handle" | some (_, r) => "run=" ++ kindNames r k)
+  | .lookups h => some (match hp.regOf h with
+      | none => "bad-handle"
+      | some (_, r) => "lk=" ++ kindNames r .cert ++ "/" ++ kindNames r .crl ++ "/" ++ kindNames r .ocsp)
+  | _ => none
 
 /-- one operation: the new heap and what the caller observes -/
 def step (hp : Heap) : Op → Heap × String
@@ -72,6 +85,8 @@ def step (hp : Heap) : Op → Heap × String
     (hp, match hp.regOf h with
       | none => "bad-handle"
       | some (_, r) => "listing=" ++ join ((r.cert.lints ++ r.ocsp.lints ++ r.crl.lints).map (fun e => e.md.name ++ "/" ++ e.md.source)))
+  | .runKind h k => (hp, (stepObs hp (.runKind h k)).getD "")
+  | .lookups h => (hp, (stepObs hp (.lookups h)).getD "")
 
 def run : Heap → List Op → List String
   | _, [] => []
